@@ -115,3 +115,63 @@ Definition judge_cligraph (rec : list Z) : Z :=
     end
   | None => 1
   end.
+
+(* ---------- verdict lines of the recognition tools ---------- *)
+From Coq Require Import String Ascii.
+From Cmr Require Import SpModel TuModel CtuModel.
+
+Definition zs (s : string) : list Z := map (fun a => Z.of_nat (nat_of_ascii a)) (list_ascii_of_string s).
+
+Fixpoint is_prefix (p t : list Z) : bool :=
+  match p, t with
+  | [], _ => true
+  | x :: p', y :: t' => (x =? y) && is_prefix p' t'
+  | _ :: _, [] => false
+  end.
+Fixpoint contains (p t : list Z) : bool :=
+  is_prefix p t || match t with [] => false | _ :: t' => contains p t' end.
+
+(* tool, variant -> (property name in the verdict line, the definition-level oracle, domain of inputs the oracle speaks about)
+   0 cmr-tu; 1 cmr-regular; 2 cmr-graphic (variant 1: -t, cographic); 4 cmr-series-parallel (variant 1: -b);
+   5 cmr-balanced; 6 cmr-ctu; 8 cmr-k-ary (variant 0 -I integer, 1 -t ternary, 2 -b binary) *)
+Definition verdict_spec (tool variant : Z) (m n : nat) (M : mat) : option (string * bool) :=
+  let cells := (m * n)%nat in
+  if tool =? 0 then (if Nat.leb cells 20 then Some ("totally unimodular"%string, tu_bf m n M) else None)
+  else if tool =? 1 then (if Nat.leb cells 16 && is_binary M then Some ("regular"%string, regular_bf m n M) else None)
+  else if tool =? 2 then
+    (if negb (is_binary M) then None
+     else if variant =? 0 then (if Nat.leb m 4 && Nat.leb n 6 then Some ("graphic"%string, graphic_bf m n M) else None)
+     else (if Nat.leb n 4 && Nat.leb m 6 then Some ("cographic"%string, graphic_bf n m (transpose m n M)) else None))
+  else if tool =? 4 then
+    (if variant =? 0 then (if is_ternary M then Some ("series-parallel"%string, sp_greedy true m n M) else None)
+     else (if is_binary M then Some ("series-parallel"%string, sp_greedy false m n M) else None))
+  else if tool =? 5 then (if Nat.leb cells 20 && is_ternary M then Some ("balanced"%string, balanced_bf m n M) else None)
+  else if tool =? 6 then (if Nat.leb cells 12 && is_binary M then Some ("complement totally unimodular"%string, ctu_bf m n M) else None)
+  else if tool =? 8 then
+    (if variant =? 0 then Some ("integer"%string, true) else if variant =? 1 then Some ("ternary"%string, is_ternary M)
+     else Some ("binary"%string, is_binary M))
+  else None.
+
+(* record: tool variant infmt nin inbytes.. rc ntext text(stdout then stderr)..
+   0 accepted (incl. inputs outside the oracle's domain); 1 malformed record; 350 tool failed on a well-formed matrix file;
+   351 no verdict line or both a positive and a negative one; 352 the verdict contradicts the definition-level oracle;
+   353 a verdict line although the input text is malformed *)
+Definition judge_cliverdict (rec : list Z) : Z :=
+  match (tool <- dZ ;; variant <- dZ ;; infmt <- dZ ;; inb <- dlist dZ ;; rc <- dZ ;; txt <- dlist dZ ;;
+         dend (tool, variant, infmt, inb, rc, txt)) rec with
+  | Some ((tool, variant, infmt, inb, rc, txt), _) =>
+    match parse infmt 1 inb with
+    | TErr => if contains (zs "Matrix IS "%string) txt then 353 else 0
+    | TOk m n M =>
+      match verdict_spec tool variant m n M with
+      | None => 0
+      | Some (name, expected) =>
+        let yes := contains (zs "Matrix IS "%string ++ zs name) txt in
+        let no := contains (zs "NOT "%string ++ zs name) txt in
+        if negb (rc =? 0) then 350
+        else if Bool.eqb yes no then 351
+        else if Bool.eqb yes expected then 0 else 352
+      end
+    end
+  | None => 1
+  end.
